@@ -177,6 +177,67 @@ def tensor_targets():
         ts.append(Target("synapgrad.tensor.Tensor.__init__[dtype argument %s]" % ("given" if dtype_given else "omitted"), TENSOR_PY, "Tensor.__init__", setup_init, ens_init,
                          executor=ex_init, key={"dtype_argument": dtype_given}))
 
+    # ---- Tensor.__init__ when the data argument is itself a Tensor (the route taken by Parameter(t)): the class invariant "requires grad => floating dtype" and the mode rule
+    #      survive whatever keyword arguments come along; Tensor.copy_from is used through its contract (every attribute of the source is bound on self) and discharged below
+    def copy_contract(ex_, st, args, kw):
+        st.attrs(args[0]).update(st.attrs(args[1]))
+        return None
+
+    def setup_from(ex):
+        s = TM.base_state()
+        s.glob["F"] = Opaque("F")
+        s.glob["default_type__"] = Opaque("default_type")
+        me, src, arr = Obj("Tensor"), Obj("Tensor"), Obj("ndarray")
+        d_src, dp = z3.Ints("dtype_of_source dtype_argument")
+        rg_src, rg, dt_given = z3.Bools("source_requires_grad requires_grad dtype_given")
+        s.attrs(arr)["dtype"] = d_src
+        s.attrs(src).update(data=arr, _requires_grad=rg_src, _grad=None, _grad_fn=None, _retain_grad=False, _children=(), _operation=None, _name=None, device=Opaque("device"), _initialized=True)
+        s.pc.append(z3.Implies(rg_src, ISFP(d_src)))            # the source satisfies the class invariant
+
+        def isfp_of(ex_, st, o):
+            return ISFP(st.attrs(st.attrs(o)["data"])["dtype"])
+        ex.attr_models[("Tensor", "is_floating_point")] = isfp_of
+        ex.attr_models[("Tensor", "dtype")] = lambda ex_, st, o: st.attrs(st.attrs(o)["data"])["dtype"]
+
+        def astype(ex_, st, args, kw):
+            n_ = Obj("ndarray")
+            st.attrs(n_)["dtype"] = args[1]
+            return n_
+        ex.models["ndarray.astype"] = astype
+        ex.models["Tensor.copy_from"] = copy_contract
+        ctx = {"me": me, "src": src, "rg_src": rg_src, "rg": rg, "G": s.glob["gradient__"], "dp": dp, "ISFP": ISFP}
+        return s, ([me, src], {"requires_grad": rg, "dtype": dp, "children": (), "name": Opaque("name")}), ctx
+
+    def ens_from(ctx, s, out):
+        if isinstance(out, Raised):
+            return [("refuses_only_what_would_break_the_invariant", z3.BoolVal(True))]
+        a = s.attrs(ctx["me"])
+        stored, flag = a.get("data"), a.get("_requires_grad")
+        if not isinstance(stored, Obj) or flag is None:
+            return [("takes_over_data_and_flag_of_the_source", False)]
+        flag = flag if z3.is_expr(flag) else z3.BoolVal(bool(flag))
+        return [("requires_grad_only_with_a_floating_dtype", z3.Implies(flag, ctx["ISFP"](s.attrs(stored)["dtype"]))),
+                ("requires_grad_only_if_the_source_did_or_asked_for_while_tracking", z3.Implies(flag, z3.Or(ctx["rg_src"], z3.And(ctx["rg"], ctx["G"]))))]
+    ts.append(Target("synapgrad.tensor.Tensor.__init__[data is a Tensor]", TENSOR_PY, "Tensor.__init__", setup_from, ens_from,
+                     executor=lambda: _tensor_executor(extra_havoc={"lazy_import"}), key={"data": "Tensor"}))
+
+    def setup_copy(ex):
+        s = TM.base_state()
+        me, src = Obj("Tensor"), Obj("Tensor")
+        vals = {k: Opaque(k) for k in ("data", "_requires_grad", "_grad", "_grad_fn", "_children", "_name", "device")}
+        s.attrs(src).update(vals)
+        s.attrs(me).update(data=Opaque("old_data"), _requires_grad=Opaque("old_flag"), own_only=Opaque("own"))
+        return s, [me, src], {"me": me, "src": src, "vals": vals}
+
+    def ens_copy(ctx, s, out):
+        if isinstance(out, Raised):
+            return [("completes", False)]
+        a, b = s.attrs(ctx["me"]), s.attrs(ctx["src"])
+        return [("every_attribute_of_the_source_is_bound_on_self", all(a.get(k) is v for k, v in ctx["vals"].items())),
+                ("the_source_is_left_as_it_was", all(b.get(k) is v for k, v in ctx["vals"].items()) and set(b) == set(ctx["vals"])),
+                ("the_two_objects_keep_separate_attribute_tables", s.attrs(ctx["me"]) is not s.attrs(ctx["src"]))]
+    ts.append(Target("synapgrad.tensor.Tensor.copy_from", TENSOR_PY, "Tensor.copy_from", setup_copy, ens_copy, executor=_tensor_executor))
+
     # ---- requires_grad setter
     def setup_set(ex):
         s = TM.base_state()
